@@ -27,6 +27,8 @@ pub struct PointState {
     pub faults_hit: Vec<(String, u64)>,
     /// every hit of the point "write" whose path contains this text fails ("device full")
     pub fault_write_path: Option<String>,
+    /// (fault mode) a thread that hits one of these points waits until the name is removed
+    pub hold_points: HashSet<String>,
     pub noise_seed: u64,
     pub noise_points: HashSet<String>,
 }
@@ -211,6 +213,11 @@ impl Handler for H {
                 Ok(())
             }
             MODE_FAULT => {
+                while ps.hold_points.contains(name) {
+                    drop(ps);
+                    std::thread::sleep(std::time::Duration::from_micros(500));
+                    ps = self.points.lock().unwrap_or_else(|p| p.into_inner());
+                }
                 let k = (name.to_string(), occ);
                 if name == "write" {
                     if let (Some(sub), Some(p)) = (ps.fault_write_path.as_deref(), path) {
